@@ -204,6 +204,28 @@ theorem float_tree_roundtrip (O : FloatOracle) (hO : Lawful O) (ty : FTy) (x : O
         rw [parseFloatLit_text O hO _ _ (hO.repr_shape _ x hfin hx h5), hO.repr_roundtrip _ x hfin hx]
 
 
+/-- "floats … including NaN, infinities and negative zero … preserved bit for bit", for the helper
+attribute `builtin.FloatData` (a bare Python float, FIXED code): for every oracle satisfying the
+stated laws of CPython/`struct` and EVERY value `x` (no hypothesis: NaNs of any payload and sign,
+both infinities, both zeros, subnormals), the text `FloatData.print_parameter` writes between the
+angle brackets — the upper-case hexadecimal binary64 bit pattern for a non-finite value, else
+`repr(x)` with `.0` spliced in front of the exponent when it has no `.` — is read by the lexer as
+ONE number token and `FloatData.parse_parameter` returns the bit-identical value.  (Before the fix
+`inf`/`-inf`/`nan` were printed as bare words, which `parse_number` rejects.) -/
+theorem floatdata_roundtrip (O : FloatOracle) (hO : Lawful O) (hD : LawfulData O) (x : O.F) :
+    parseFloatData O (printFloatData O x) = some x := by
+  unfold printFloatData printFloatDataObs
+  simp only []
+  by_cases hni : (O.isNan x || O.isInf x) = true
+  · simp only [hni, if_true]
+    rw [parseFloatData_hex O _ (O.pack .f64 x) (toHexU_ne_nil _) (toHexU_digits _)
+      (ofDigits_toHexU _) (by rw [hO.pack_length, hD.size_f64]), hD.bits_roundtrip]
+  · have hfin : O.finite x := by
+      simp only [Bool.or_eq_true, not_or, Bool.not_eq_true] at hni
+      exact hni
+    simp only [hni, Bool.false_eq_true, if_false]
+    rw [parseFloatData_text O hO _ (hD.fd_shape x hfin), hD.fd_exact x hfin]
+
 /-- non-vacuity: a two-point oracle (`false` = 1.0, `true` = -1.0) satisfying every law -/
 def toyParse : List Char → Bool
   | '-' :: t => !(toyParse t)
@@ -221,12 +243,12 @@ def toyOracle : FloatOracle where
   fmt17g := fun b => if b then "-1".toList else "1".toList
   repr := fun b => if b then "-1.0".toList else "1.0".toList
   parse := toyParse
-  pack := fun _ b => [if b then 0x80 else 0]
-  unpack := fun _ bs => decide (bs.head? = some 0x80)
-  size := fun _ => 1
+  pack := fun _ b => [0, 0, 0, 0, 0, 0, 0, if b then 0x80 else 0]
+  unpack := fun _ bs => decide (bs.getLast? = some 0x80)
+  size := fun _ => 8
 
 theorem toyOracle_lawful : Lawful toyOracle where
-  size_pos := fun _ => Nat.one_pos
+  size_pos := fun _ => (by decide : 0 < 8)
   pack_length := fun _ _ => rfl
   parse_neg := fun _ => rfl
   fmt5e_shape := fun x _ => by
@@ -247,6 +269,33 @@ theorem toyOracle_lawful : Lawful toyOracle where
 example : printFloat toyOracle .f32 true = "-1.000000e+00".toList ∧
     parseFloatLit toyOracle .f32 (printFloat toyOracle .f32 true) = some true :=
   ⟨by decide, float_tree_roundtrip toyOracle toyOracle_lawful .f32 true rfl⟩
+
+theorem toyOracle_lawfulData : LawfulData toyOracle where
+  size_f64 := rfl
+  bits_roundtrip := fun x => by cases (x : Bool) <;> rfl
+  fd_shape := fun x _ => by
+    cases (x : Bool)
+    · exact (by decide : isFloatLit (stripMinus (fdText "1.0".toList)).2 = true)
+    · exact (by decide : isFloatLit (stripMinus (fdText "-1.0".toList)).2 = true)
+  fd_exact := fun x _ => by cases (x : Bool) <;> rfl
+
+example : printFloatData toyOracle true = "-1.0".toList ∧
+    parseFloatData toyOracle (printFloatData toyOracle true) = some true :=
+  ⟨by decide, floatdata_roundtrip toyOracle toyOracle_lawful toyOracle_lawfulData true⟩
+
+/-- `FloatData` on concrete observations: `inf`, a NaN with payload and sign, `1e+20`, `-0.0`; the
+printed bit pattern is one hexadecimal `INTEGER_LIT` that fits 8 bytes, `1.0e+20` is one `FLOAT_LIT`
+(the unfixed `1e+20` lexes as the integer `1` followed by `e+20`; the unfixed `inf` is no number) -/
+example : printFloatDataObs ⟨true, [0, 0, 0, 0, 0, 0, 0xF0, 0x7F], "inf".toList⟩ = "0x7FF0000000000000".toList ∧
+    printFloatDataObs ⟨true, [1, 0, 0, 0, 0, 0, 0xF8, 0xFF], "nan".toList⟩ = "0xFFF8000000000001".toList ∧
+    lexNumber "0xFFF8000000000001".toList = some (.int 0xFFF8000000000001 true, []) ∧
+    toBytesLE? 8 0xFFF8000000000001 = some [1, 0, 0, 0, 0, 0, 0xF8, 0xFF] ∧
+    toBytesLE? 8 0x10000000000000000 = none ∧
+    printFloatDataObs ⟨false, [], "1e+20".toList⟩ = "1.0e+20".toList ∧
+    lexNumber "1.0e+20".toList = some (.float "1.0e+20".toList, []) ∧
+    lexNumber "1e+20".toList = some (.int 1 false, "e+20".toList) ∧
+    lexNumber "inf".toList = none ∧
+    printFloatDataObs ⟨false, [], "-0.0".toList⟩ = "-0.0".toList := by decide
 
 /-- the hexadecimal branches on concrete observations: NaN of f32 and `123456792.0 : f32` -/
 example : printFloatObs ⟨.f32, true, [0x00, 0x00, 0xC0, 0x7F], [], false, [], [], []⟩ = "0x7fc00000".toList ∧
